@@ -256,7 +256,7 @@ example : (asmFor 0 [Instr.popUntilMark 0] [Instr.push (.bool false)] [Instr.pop
 
 Stage A — machine lemmas: one turn of the `Run` loop, and each simple instruction as a state
 transformer. Stage B — the segment lemma and the top-level statement for the pure control
-fragment `F0c` (literals, non-empty `begin`, `cond` with any number of arms, `and`/`or` of any
+fragment `F0c` (literals, `begin`, `cond` with any number of arms, `and`/`or` of any
 arity, nested arbitrarily), for programs of every size and nesting. -/
 
 open ZygoVerif.Sim
@@ -421,11 +421,14 @@ example : obsOfVM (VM.runText 141 demoF0c VM.initSt).1 = obsOfRef (Ref.runProgra
 /-! ## Stages C and D — variables and scopes: symbols, `def`, `set`, `newScope`, `letseq`, `let`
 (fragment Fv ⊇ F0c)
 
-`Fv` = literals, symbol reference, `def`, `set`, non-empty `begin`, `cond`, `and`, `or`,
+`Fv` = literals, symbol reference, `def`, `set`, `begin` (also empty), `cond`, `and`, `or`,
 non-empty `newScope`, `letseq`, and `let` with pairwise distinct names, nested arbitrarily.
 (`let` binds its names by popping, the last name first; the reference evaluator binds the first
 name first; with a repeated name the two differ — `(let [a 1 a 2] a)` is 1 on the VM and in the
-implementation, 2 in the reference evaluator — so such a `let` is outside the fragment.)
+implementation, 2 in the reference evaluator — so such a `let` is outside the fragment, and
+`Ref.wf` puts it outside the property's domain. An empty `(newScope)` stays outside too: the
+reference evaluator allocates a frame for it, the VM just pushes nil, so the two tables leave
+the lockstep the relation is built on.)
 
 Expressions now have effects (on the scopes) and can fail (unbound symbol, re-binding with a
 different type). The segment lemma carries the simulation relation `Sim.Rel` between VM state
@@ -595,14 +598,18 @@ example : ∃ fuel' tr, obsOfRef (Ref.runProgram 6 demoFvErr Ref.initSt).1 = som
 /-! ## Stage D, second half — calls of first-order builtins (fragment Fc)
 
 `Fc` = Fv whose binder names (`def`/`set`/`let`/`letseq`) are not names of first-order builtins,
-plus array literals `[e₁ … eₙ]` with elements in Fc, plus calls `(h a₁ … aₙ)` where `h` is one of
+plus array literals `[e₁ … eₙ]` with elements in Fc, plus `for` loops `(for [init test incr] body…)` (labelled
+or not) whose parts are in Fc — so without `break`/`continue` —, plus calls `(h a₁ … aₙ)` where `h` is one of
 `+ - * mod < > <= >= == != not cons first rest second list array len append concat aget aset hash
 hget hset trace` and the operands are in Fc. A call is ONE VM instruction (`callExpr`); executing it
 compiles every operand at run time into a fresh function object and runs it in a nested `Run`
 (`EvalCallExpression`/`nested`), then runs the builtin under `CallUserFunction`. The relation
 (`Sim.RelC`) therefore lets the function table grow and the current function be such a helper:
 every closing list on the parent chain of the current function is a suffix of the linear scope
-stack; first-order builtin names are bound in the global frame only. -/
+stack; first-order builtin names are bound in the global frame only; no value is a stack mark
+(`Sim.Clean`: `for` pushes a mark and `popUntilMark`/`clearMark` pop down to it). The number of
+instructions a piece of code executes is no longer bounded by its length (loops), the fuel it needs
+is existential. -/
 
 /-- **Segment lemma for Fc**, spelled out (see `Sim.segment_Fc`). -/
 theorem segment_lemma_Fc (e : Expr) (he : Fc e = true) (isFn : Nat → Bool) (c : Ctx) (hfn : c.funcname = "")
@@ -614,8 +621,8 @@ theorem segment_lemma_Fc (e : Expr) (he : Fc e = true) (isFn : Nat → Bool) (c 
     | .ok v rs' => ∃ s', RelC s' rs' env ∧ fnOf s' s'.curfunc = fnOf s s.curfunc
         ∧ s'.pc = s.pc + (code.length : Int) ∧ s'.data = some v :: s.data
         ∧ s'.linear = s.linear ∧ s'.addr = s.addr ∧ s'.curfunc = s.curfunc
-        ∧ ∃ k m, k ≤ code.length ∧ ∀ fuel, m ≤ fuel → ∀ st, (runLoop (fuel + k) st).run s = (runLoop fuel st).run s'
-    | .err rs' => ∃ k m, k ≤ code.length ∧ ∀ fuel, m ≤ fuel → ∀ st,
+        ∧ ∃ k m, ∀ fuel, m ≤ fuel → ∀ st, (runLoop (fuel + k) st).run s = (runLoop fuel st).run s'
+    | .err rs' => ∃ k m, ∀ fuel, m ≤ fuel → ∀ st,
         ∃ sf, (runLoop (fuel + k) st).run s = (.error .err, sf) ∧ sf.trace = rs'.trace
     | .timeout => True
     | .brk _ _ => False
@@ -624,12 +631,12 @@ theorem segment_lemma_Fc (e : Expr) (he : Fc e = true) (isFn : Nat → Bool) (c 
   cases hres : Ref.eval n e env rs with
   | ok v rs' =>
     rw [hres] at h
-    obtain ⟨s', ⟨m, k, hk, H⟩, l, rel, -, fr⟩ := h
-    exact ⟨s', rel, l.fn, l.pc, l.data, fr.linear, fr.addr, fr.curfunc, k, m, hk, H⟩
+    obtain ⟨s', ⟨K, m, k, hk, H⟩, l, rel, -, fr, -⟩ := h
+    exact ⟨s', rel, l.fn, l.pc, l.data, fr.linear, fr.addr, fr.curfunc, k, m, H⟩
   | err rs' =>
     rw [hres] at h
-    obtain ⟨k, hk, m, H⟩ := h
-    exact ⟨k, m, hk, H⟩
+    obtain ⟨K, k, hk, m, H⟩ := h
+    exact ⟨k, m, H⟩
   | timeout => trivial
   | brk l rs' => rw [hres] at h; exact h
   | cont l rs' => rw [hres] at h; exact h
@@ -678,6 +685,18 @@ def demoFcArr : List Expr :=
 
 example : FcList demoFcArr = true := by decide
 
+/-- `(def s 0) (for [(def i 0) (< i 4) (set i (+ i 1))] (set s (+ s i)) (for [(def j 0) (< j i) (set j (+ j 1))]
+(trace j))) s`: nested loops, a loop variable in the loop scope, effects on a global, traces -/
+def demoFcFor : List Expr :=
+  [.def_ "s" (.int 0),
+   .for_ none (.def_ "i" (.int 0)) (.call (.sym "<") [.sym "i", .int 4]) (.set_ "i" (.call (.sym "+") [.sym "i", .int 1]))
+     [.set_ "s" (.call (.sym "+") [.sym "s", .sym "i"]),
+      .for_ (some "inner") (.def_ "j" (.int 0)) (.call (.sym "<") [.sym "j", .sym "i"])
+        (.set_ "j" (.call (.sym "+") [.sym "j", .int 1])) [.call (.sym "trace") [.sym "j"]]],
+   .sym "s"]
+
+example : FcList demoFcFor = true := by decide
+
 /-- `(def a (+ 1 2)) (trace (* a a))`: value 9, one `trace` call -/
 def demoFcSmall : List Expr :=
   [.def_ "a" (.call (.sym "+") [.int 1, .int 2]), .call (.sym "trace") [.call (.sym "*") [.sym "a", .sym "a"]]]
@@ -713,8 +732,8 @@ def InProvedFragment (p : List Expr) : Prop := FvList p = true ∨ FcList p = tr
 
 /-- **The part of `CompileCorrect` that is NOT proved**: programs that are neither in Fv nor in
 Fc — i.e. using calls whose head is not the name of a first-order builtin (user functions,
-`map`/`apply`/`force`, computed heads), `for`/`break`/`continue`, `fn`/`defn`, a `let`
-with a repeated name, an empty `begin`/`newScope`, or (together with calls or array literals) a
+`map`/`apply`/`force`, computed heads), `break`/`continue` (and so loops that use them), `fn`/`defn`,
+an empty `newScope`, or (together with calls or array literals) a
 binder that re-uses a builtin name. Held by the 3-way `eval` correspondence on every run, not by a theorem. -/
 def CompileCorrectOutsideProved : Prop := CompileCorrectOn (fun p => ¬ InProvedFragment p)
 
@@ -727,14 +746,14 @@ def CompileCorrectOutsideProved : Prop := CompileCorrectOn (fun p => ¬ InProved
      (distinct names) — `compile_correct_on_Fv`;
    * Fc — the same with binder names that are not builtin names, plus calls of first-order
      builtins (arithmetic, comparisons, `not`, lists, arrays, strings, `trace`), operands evaluated
-     in nested runs, and array literals — `compile_correct_on_Fc`;
+     in nested runs, array literals, and `for` loops without `break`/`continue` — `compile_correct_on_Fc`;
    * for the effect-free sub-fragment F0c with explicit fuel on both sides — `compile_correct_F0c`;
 2. the full `CompileCorrect` follows from its restriction to the remaining programs
    (`CompileCorrectOutsideProved`, the precise unproved remainder);
 3. the layout half for `begin`/`cond`/`and`/`or` as before (and `gen_for_layout` for loops).
 
-MISSING (held by the `eval` correspondence only): `CompileCorrectOutsideProved` — F1
-(`for`/`break`/`continue`), F2 (closures, user calls, varargs, recursion), F3 (self tail calls,
+MISSING (held by the `eval` correspondence only): `CompileCorrectOutsideProved` — `break`/`continue`
+(the rest of F1), F2 (closures, user calls, varargs, recursion), F3 (self tail calls,
 `map`/`apply`, lazy parameters). -/
 theorem compile_correct_partial :
     CompileCorrectOn InProvedFragment
